@@ -158,6 +158,7 @@ def run_case(case, tier):
     rig = ManagerRig(stepped=True, timecode=bool(case.get("tc")), loud=bool(case.get("loud")))
     try:
         sc = Scenario(rig, case.get("seed", 0))
+        sc.vary_source = True   # source fields are the publisher's business: they must arrive as written
         sc.run(case["steps"])
         return judge(sc, case)
     finally:
